@@ -134,6 +134,33 @@ CHECKS.update({
         note='Python-level file operations; fsync/durability not modelled; FigureData/H5Data not exercised.'),
 })
 
+CHECKS.update({
+    'C14': dict(
+        cat='model_checking', ref='DESIGN.md 4.5, 6/C14', engine='cacheseq',
+        technique='TLA+ CacheSeq (dictionary model with damage actions) checked by TLC; exported edge cover and random '
+                  'walks replayed on JsonCache (both allow_nones), NumpyArrayCache, DataFrameCache',
+        text='TLC explores all sequences of get / get_or_compute / force / raising computer / truncate / delete / '
+             'foreign-key entry over two keys and a sub-cache, checking NeverReturnsDamage, GetNeverComputes, '
+             'RaiseStoresNothing, SlotsIndependent, ForceReplaces, IntactIsServed; every transition is replayed on the '
+             'real caches: returned value (type/dtype-exact), computer call count, CacheException for a foreign key, '
+             'existence of every slot file; real files are cut to 0/1/half/n-1 bytes, overwritten with garbage or an '
+             'empty document.',
+        note='Keys from a pool of awkward unicode strings; values from a small generator per cache type.'),
+    'C15': dict(
+        cat='model_checking', ref='DESIGN.md 4.5, 5.5, 6/C15', engine='cache',
+        technique='PlusCal/TLA+ Cache (one label per yield point of FileCache.get / get_or_compute) model-checked for '
+                  '2-3 callers; TLC behaviours drive real threads through a deterministic scheduler; seeded random '
+                  'schedules of the real yield points explored without the model',
+        text='TLC checks ReturnsCompleted, QuiescentComplete, GetNeverComputes, MutualExclusion, NoNeedlessRecompute, '
+             'GetFindsStable (and termination under fairness) for every interleaving of 2 and 3 callers x every mix of '
+             'get / get_or_compute / force x entry present or absent, with the write split in two chunks. Simulated '
+             'behaviours are executed on the real JsonCache with the real FileLock: each thread stops at every lock '
+             'acquire/release, exists, open, read, compute, write-half, close; the scheduler releases exactly the '
+             'thread the behaviour names and reports drift if the code is elsewhere. Independently, seeded random '
+             'schedules over the real yield points are run and judged by the property alone.',
+        note='filelock trusted; yield points are Python-level; threads stand for processes (same lock file protocol).'),
+})
+
 PENDING = {
     'C02': 'check not built yet (KeyScheme specification in progress)',
     'C03': 'check not built yet (KeyScheme specification in progress)',
@@ -193,6 +220,11 @@ def main():
             {'name': 'steps', 'path': '/verif/specs/StoreSteps.tla', 'serves_properties': ['C05'],
              'kind_free_text': 'TLA+ semantics of file operations on final/tmp/err/old objects with Crash; protocols are '
                                'recorded from the real code (harness/tcverif/fsops.py, faults.py)'},
+            {'name': 'cacheseq', 'path': '/verif/specs/CacheSeq.tla', 'serves_properties': ['C14'],
+             'kind_free_text': 'TLA+ dictionary model of file caches with damage actions; edge export + replay'},
+            {'name': 'cache', 'path': '/verif/specs/Cache.tla', 'serves_properties': ['C15'],
+             'kind_free_text': 'PlusCal model of FileCache.get/get_or_compute at yield-point granularity; '
+                               'harness/tcverif/cache_sched.py schedules real threads'},
             {'name': 'store', 'path': '/verif/specs/StoreAtomic.tla',
              'serves_properties': ['C01', 'C04', 'C07', 'C13'],
              'kind_free_text': 'TLA+ specification of task objects / chains / data directory at public-call '
